@@ -71,6 +71,35 @@ func (ex *Exec) switchTo(from, next *G) {
 	}
 }
 
+// yieldPoint is called before every synchronisation operation.  With SchedChoice
+// it is a choice point over the runnable goroutines, so that all interleavings at
+// the granularity of synchronisation operations are explored.
+func (ex *Exec) yieldPoint() {
+	if !ex.SchedChoice || ex.inYield {
+		return
+	}
+	g := ex.cur
+	var run []*G
+	for _, o := range ex.gs {
+		if o == g || o.runnable() {
+			run = append(run, o)
+		}
+	}
+	if len(run) < 2 {
+		return
+	}
+	ex.schedPoints++
+	if ex.schedPoints > ex.MaxSchedPoints {
+		return // beyond the bound: continue with the canonical schedule
+	}
+	k := ex.chooseFree(len(run))
+	if run[k] != g {
+		ex.inYield = true
+		ex.switchTo(g, run[k])
+		ex.inYield = false
+	}
+}
+
 // block parks the current goroutine until cond holds.
 func (ex *Exec) block(cond func() bool, what string) {
 	g := ex.cur
@@ -206,6 +235,7 @@ func (ex *Exec) killAll() {
 // ---- channels ----
 
 func (ex *Exec) chanSend(fr *frame, c *Chan, v Value) {
+	ex.yieldPoint()
 	if c == nil {
 		ex.block(func() bool { return false }, "send on nil channel")
 	}
@@ -220,6 +250,7 @@ func (ex *Exec) chanSend(fr *frame, c *Chan, v Value) {
 }
 
 func (ex *Exec) chanRecv(fr *frame, c *Chan, commaOk bool, elem types.Type) Value {
+	ex.yieldPoint()
 	if c == nil {
 		ex.block(func() bool { return false }, "receive on nil channel")
 	}
@@ -240,6 +271,7 @@ func (ex *Exec) chanRecv(fr *frame, c *Chan, commaOk bool, elem types.Type) Valu
 }
 
 func (ex *Exec) chanClose(c *Chan) {
+	ex.yieldPoint()
 	if c == nil {
 		panic(&goPanic{V: Iface{T: types.Typ[types.String], V: "close of nil channel"}, Runtime: true, Msg: "close of nil channel"})
 	}
@@ -264,6 +296,7 @@ func (ex *Exec) mutexLock(p *Value) {
 	if p == nil {
 		ex.rtPanic("invalid memory address or nil pointer dereference")
 	}
+	ex.yieldPoint()
 	st := ex.mutexOf(p)
 	ex.block(func() bool { return !st.locked }, "mutex")
 	st.locked = true
